@@ -50,15 +50,13 @@ func checkC04(r *core.Run) {
 	}
 	info := with.Pkg.TypesInfo
 	named := namedErrResult(with.Pkg, with.Decl.Type)
-	// the deferred closure that performs the second phase: contains a call reaching GlobalTransactionManager.Commit
 	gtm := w.NamedType("pkg/tm", "GlobalTransactionManager")
 	commitM, rollbackM := w.MethodOf(gtm, "Commit"), w.MethodOf(gtm, "Rollback")
 	beginM := w.MethodOf(gtm, "Begin")
 	reachP2 := newReach(w, 3, func(f *types.Func) bool { return f == commitM || f == rollbackM })
 	reachBegin := newReach(w, 3, func(f *types.Func) bool { return f == beginM })
+	// the deferred closure that performs the second phase: contains a call reaching GlobalTransactionManager.Commit
 	var p2lit *ast.FuncLit
-	var p2call *ast.CallExpr
-	var p2fn *core.FuncInfo
 	ast.Inspect(with.Decl.Body, func(n ast.Node) bool {
 		ds, ok := n.(*ast.DeferStmt)
 		if !ok {
@@ -71,7 +69,7 @@ func checkC04(r *core.Run) {
 		ast.Inspect(lit.Body, func(m ast.Node) bool {
 			if c, ok := m.(*ast.CallExpr); ok {
 				if f := core.Callee(info, c); f != nil && reachP2.Hits(f) && w.Info(f) != nil {
-					p2lit, p2call, p2fn = lit, c, w.Info(f)
+					p2lit = lit
 				}
 			}
 			return true
@@ -82,21 +80,105 @@ func checkC04(r *core.Run) {
 		r.Anchor("C04.decision", nil, "deferred closure of WithGlobalTx that calls the second phase, and a named error result")
 		return
 	}
+	// the dispatcher: the function that calls both GlobalTransactionManager.Commit and .Rollback itself
+	var p2fn *core.FuncInfo
+	for _, f := range w.SortedFuncs() {
+		if f.Pkg.PkgPath != pTM || w.IsTestFile(f.Decl.Pos()) {
+			continue
+		}
+		c, rb := false, false
+		for _, cs := range w.Calls(f) {
+			c = c || cs.Static == commitM
+			rb = rb || cs.Static == rollbackM
+		}
+		if c && rb {
+			p2fn = f
+		}
+	}
+	if p2fn == nil {
+		r.Anchor("C04.decision", nil, "function of pkg/tm that dispatches to GlobalTransactionManager.Commit and .Rollback")
+		return
+	}
 	r.Fn(p2fn)
-	// ---- C04.decision: the flag is (no panic) && (no business error)
-	var recVar types.Object
+	// the unit that decides: the closure itself, or the helper it hands recover() and the result to
+	// (`re = helper(ctx, recover(), re)`); recObj / errObj are the recovered value and the business error inside it
+	type unit struct {
+		fn             *core.FuncInfo // nil: the closure
+		body           *ast.BlockStmt
+		recObj, errObj types.Object
+	}
+	u := unit{body: p2lit.Body, errObj: named}
 	ast.Inspect(p2lit.Body, func(n ast.Node) bool {
 		if as, ok := n.(*ast.AssignStmt); ok && len(as.Lhs) == 1 && len(as.Rhs) == 1 {
 			if c, ok := as.Rhs[0].(*ast.CallExpr); ok {
 				if id, ok := c.Fun.(*ast.Ident); ok && id.Name == "recover" {
 					if _, isB := info.Uses[id].(*types.Builtin); isB {
-						recVar = core.ObjOf(info, as.Lhs[0])
+						u.recObj = core.ObjOf(info, as.Lhs[0])
 					}
 				}
 			}
 		}
 		return true
 	})
+	isRecover := func(e ast.Expr) bool {
+		if c, ok := ast.Unparen(e).(*ast.CallExpr); ok {
+			if id, ok := c.Fun.(*ast.Ident); ok && id.Name == "recover" {
+				_, isB := info.Uses[id].(*types.Builtin)
+				return isB
+			}
+		}
+		return u.recObj != nil && isObj(info, e, u.recObj)
+	}
+	ast.Inspect(p2lit.Body, func(n ast.Node) bool {
+		as, ok := n.(*ast.AssignStmt)
+		if !ok || len(as.Lhs) != 1 || len(as.Rhs) != 1 || !isObj(info, as.Lhs[0], named) {
+			return true
+		}
+		c, ok := ast.Unparen(as.Rhs[0]).(*ast.CallExpr)
+		if !ok {
+			return true
+		}
+		h := w.Info(core.Callee(info, c))
+		if h == nil || h.Pkg.PkgPath != pTM || !reachP2.Hits(h.Obj) || h == p2fn {
+			return true
+		}
+		ps := paramObjs(h)
+		hu := unit{fn: h, body: h.Decl.Body}
+		for ai, a := range c.Args {
+			if ai >= len(ps) {
+				break
+			}
+			if isRecover(a) {
+				hu.recObj = ps[ai]
+			}
+			if isObj(info, a, named) {
+				hu.errObj = ps[ai]
+			}
+		}
+		if hu.recObj != nil && hu.errObj != nil {
+			u = hu
+			r.Fn(h)
+		}
+		return true
+	})
+	uinfo := info
+	ufn := with
+	if u.fn != nil {
+		uinfo, ufn = u.fn.Pkg.TypesInfo, u.fn
+	}
+	var p2call *ast.CallExpr
+	ast.Inspect(u.body, func(n ast.Node) bool {
+		if c, ok := n.(*ast.CallExpr); ok && core.Callee(uinfo, c) == p2fn.Obj {
+			p2call = c
+		}
+		return true
+	})
+	keyW := core.ShortKey(with.Obj)
+	if p2call == nil {
+		r.Bad("C04.decision", keyW+" : second-phase flag", w.Pos(p2lit.Pos()), "cannot find the call of the commit/rollback dispatcher in the deferred closure or the helper it delegates to")
+		return
+	}
+	// ---- C04.decision: the flag is (no panic) && (no business error)
 	flagIdx := -1
 	if sig, ok := p2fn.Obj.Type().(*types.Signature); ok {
 		for i := 0; i < sig.Params().Len(); i++ {
@@ -105,15 +187,16 @@ func checkC04(r *core.Run) {
 			}
 		}
 	}
-	keyW := core.ShortKey(with.Obj)
-	if recVar == nil || flagIdx < 0 || flagIdx >= len(p2call.Args) {
+	if u.recObj == nil || flagIdx < 0 || flagIdx >= len(p2call.Args) {
 		r.Bad("C04.decision", keyW+" : second-phase flag", w.Pos(p2call.Pos()), "cannot find the recover() value or the boolean decision argument of the second-phase call")
-	} else {
-		arg := resolveLocalBool(with, p2lit, p2call.Args[flagIdx])
+		return
+	}
+	{
+		arg := resolveLocalBoolIn(uinfo, u.body, p2call.Args[flagIdx])
 		nilOf := map[types.Object]bool{}
-		okShape := conjunctsAllNilTests(info, arg, nilOf)
+		okShape := conjunctsAllNilTests(uinfo, arg, nilOf)
 		r.Sites++
-		r.Check(okShape && nilOf[recVar] && nilOf[named], "C04.decision", keyW+" : commit iff no panic and no business error", w.Pos(p2call.Pos()),
+		r.Check(okShape && nilOf[u.recObj] && nilOf[u.errObj], "C04.decision", keyW+" : commit iff no panic and no business error", w.Pos(p2call.Pos()),
 			"decision = (recover()==nil) && (business error==nil)", "the commit/rollback decision '"+core.ExprString(arg)+"' is not the conjunction of 'no panic' and 'no business error': a failed or panicking callback could be committed")
 	}
 	// ---- second-phase function: commit / rollback exclusive, under the launcher guard
@@ -148,7 +231,7 @@ func checkC04(r *core.Run) {
 		}
 		errDiscipline(r, "C04.surface", []*core.FuncInfo{p2fn}, nil)
 	}
-	// ---- C04.panic and C04.surface on the deferred closure
+	// ---- C04.panic and C04.surface on the deciding unit
 	assignsResult := func(pkg *packages.Package, as *ast.AssignStmt) []flow.Tag {
 		for _, l := range as.Lhs {
 			if isObj(pkg.TypesInfo, l, named) {
@@ -168,39 +251,55 @@ func checkC04(r *core.Run) {
 		}
 		return nil
 	}
-	{
-		sp := &flow.Spec{W: w, Depth: 0, AssignTags: assignsResult, Classify: panicTag, AssumeNonNil: func(pkg *packages.Package, call *ast.CallExpr) bool {
-			id, ok := call.Fun.(*ast.Ident)
-			return ok && id.Name == "recover"
-		}}
-		res := sp.AnalyzeLitSeed(with.Pkg, p2lit, func(s *flow.State) { s.SetNil(named, true) })
-		okAll := len(res.Exits) > 0 || sumHas(res, "repanic")
+	// run the unit from "business returned nil" with an assumption about one call; answer per exit whether the
+	// failure surfaces: closure -> the named result is set (or re-panic); helper -> it returns a non-nil error
+	surfaces := func(assume func(pkg *packages.Package, call *ast.CallExpr) bool, recNonNil bool, only string) (bool, int) {
+		sp := &flow.Spec{W: w, Depth: 0, Inline: -1, Split: []flow.Tag{"p2"}, AssignTags: assignsResult, Classify: panicTag, AssumeNonNil: assume}
+		var res *flow.Result
+		if u.fn == nil {
+			res = sp.AnalyzeLitSeed(with.Pkg, p2lit, func(s *flow.State) { s.SetNil(named, true) })
+		} else {
+			res = sp.AnalyzeSeed(u.fn, func(s *flow.State) {
+				s.SetNil(u.errObj, true)
+				if recNonNil {
+					s.SetNil(u.recObj, false)
+				}
+			})
+		}
+		okAll, n := len(res.Exits) > 0 || sumHas(res, "repanic"), 0
 		for _, ex := range res.Exits {
-			if !ex.St.Has("resultset") && !ex.St.Has("repanic") {
+			if only != "" && !ex.St.Maybe(only) {
+				continue
+			}
+			n++
+			good := ex.St.Has("repanic")
+			if u.fn == nil {
+				good = good || ex.St.Has("resultset")
+			} else {
+				good = good || ex.Class == flow.ExitErr
+			}
+			if !good {
 				okAll = false
 			}
 		}
-		r.Sites++
-		r.Check(okAll, "C04.panic", keyW+" : recovered panic surfaces", w.Pos(p2lit.Pos()),
-			"whenever recover() is non-nil the closure sets the returned error or re-panics", "with a recovered panic and a nil business error the closure can finish without setting the returned error or re-panicking: the panic becomes silent success")
+		return okAll, n
 	}
 	{
-		sp := &flow.Spec{W: w, Depth: 0, Split: []flow.Tag{"p2"}, AssignTags: assignsResult, Classify: panicTag, AssumeNonNil: func(pkg *packages.Package, call *ast.CallExpr) bool { return call == p2call }}
-		res := sp.AnalyzeLitSeed(with.Pkg, p2lit, func(s *flow.State) { s.SetNil(named, true) })
-		okAll := true
-		n := 0
-		for _, ex := range res.Exits {
-			if ex.St.Maybe("p2") {
-				n++
-				if !ex.St.Has("resultset") && !ex.St.Has("repanic") {
-					okAll = false
-				}
-			}
-		}
+		okAll, _ := surfaces(func(pkg *packages.Package, call *ast.CallExpr) bool {
+			id, ok := call.Fun.(*ast.Ident)
+			return ok && id.Name == "recover"
+		}, true, "")
+		r.Sites++
+		r.Check(okAll, "C04.panic", keyW+" : recovered panic surfaces", w.Pos(p2lit.Pos()),
+			"whenever recover() is non-nil the closure sets the returned error or re-panics", "with a recovered panic and a nil business error the closure can finish without setting the returned error or re-panicking: the caller sees success")
+	}
+	{
+		okAll, n := surfaces(func(pkg *packages.Package, call *ast.CallExpr) bool { return call == p2call }, false, "p2")
 		r.Sites++
 		r.Check(okAll && n > 0, "C04.surface", keyW+" : second-phase error surfaces", w.Pos(p2lit.Pos()),
 			"a failed second phase sets the returned error", "a failed commit/rollback can leave the returned error nil")
 	}
+	_ = ufn
 	for _, c := range deferClobbers(with) {
 		r.Bad("C04.surface", keyW+" : deferred closure replaces the result unguarded ("+c.Text+")", w.Pos(c.Pos), "the deferred closure can replace a non-nil result by a value that does not keep it")
 	}
@@ -263,6 +362,32 @@ func resolveLocalBool(fn *core.FuncInfo, lit *ast.FuncLit, e ast.Expr) ast.Expr 
 		if as, ok := x.(*ast.AssignStmt); ok && len(as.Lhs) == len(as.Rhs) {
 			for i, l := range as.Lhs {
 				if core.ObjOf(fn.Pkg.TypesInfo, l) == obj {
+					n++
+					rhs = as.Rhs[i]
+				}
+			}
+		}
+		return true
+	})
+	if n == 1 {
+		return rhs
+	}
+	return e
+}
+
+// resolveLocalBoolIn follows a single local assignment of a boolean identifier inside body.
+func resolveLocalBoolIn(info *types.Info, body *ast.BlockStmt, e ast.Expr) ast.Expr {
+	id, ok := ast.Unparen(e).(*ast.Ident)
+	if !ok {
+		return e
+	}
+	obj := info.Uses[id]
+	var rhs ast.Expr
+	n := 0
+	ast.Inspect(body, func(x ast.Node) bool {
+		if as, ok := x.(*ast.AssignStmt); ok && len(as.Lhs) == len(as.Rhs) {
+			for i, l := range as.Lhs {
+				if core.ObjOf(info, l) == obj {
 					n++
 					rhs = as.Rhs[i]
 				}
@@ -408,23 +533,33 @@ func c04EndRequest(r *core.Run, fi *core.FuncInfo) {
 		r.Check(okc, "C04.surface", k, w.Pos(ex.Pos), "nil is returned only after a request succeeded (or for a participant)",
 			"a possibly-nil error is returned on a path where no request has succeeded (e.g. context already cancelled): silent success without asking the coordinator")
 	}
-	// retry loop shape
+	// retry loop shape: in the function itself or in a helper of the package it sends through
 	n := 0
-	ast.Inspect(fi.Decl.Body, func(x ast.Node) bool {
-		fs, ok := x.(*ast.ForStmt)
-		if !ok {
-			return true
+	loopFns := []*core.FuncInfo{fi}
+	for _, cs := range w.Calls(fi) {
+		if h := w.Info(cs.Static); h != nil && h.Pkg == fi.Pkg && h != fi {
+			loopFns = append(loopFns, h)
 		}
-		cc, ok := fs.Cond.(*ast.CallExpr)
-		if !ok || !core.IsMethod(core.Callee(info, cc), pBackoff, "Backoff", "Ongoing") {
+	}
+	for _, lf := range dedupFns(loopFns) {
+		linfo := lf.Pkg.TypesInfo
+		ast.Inspect(lf.Decl.Body, func(x ast.Node) bool {
+			fs, ok := x.(*ast.ForStmt)
+			if !ok {
+				return true
+			}
+			cc, ok := fs.Cond.(*ast.CallExpr)
+			if !ok || !core.IsMethod(core.Callee(linfo, cc), pBackoff, "Backoff", "Ongoing") {
+				return true
+			}
+			n++
+			r.Sites++
+			r.Fn(lf)
+			okShape, why := retryLoopShape(linfo, fs, recvObj(linfo, cc))
+			r.Check(okShape, "C04.retry", key+" : retry loop shape", w.Pos(fs.Pos()), "breaks only on err == nil, waits on every continuing path", why)
 			return true
-		}
-		n++
-		r.Sites++
-		okShape, why := retryLoopShape(info, fs, recvObj(info, cc))
-		r.Check(okShape, "C04.retry", key+" : retry loop shape", w.Pos(fs.Pos()), "breaks only on err == nil, waits on every continuing path", why)
-		return true
-	})
+		})
+	}
 	if n == 0 {
 		r.Bad("C04.retry", key+" : retry loop shape", w.Pos(fi.Decl.Pos()), "no loop over Backoff.Ongoing")
 	}
